@@ -46,14 +46,17 @@ Definition build1_res (ch : changes) (d : fdiff) : changes :=
 (* the switch over a v1 diff; None = error.
    [case created] (fixes/C01-formation-carries-revision.patch): the created element is confirmed
    and, because core folds the revisions confirmed in the same block into it, also recorded as
-   the confirmed revision (on revert: revision 0, the value insertContract wrote).
+   the confirmed revision (on revert: revision 0, the value insertContract wrote);
+   (fixes/C01-v1-created-and-resolved-same-block.patch) a created diff that is also resolved — the
+   formation confirmed in the block at the window start together with a storage proof — records
+   the resolution as well.
    [case rev != nil]: on revert the element itself (the PREVIOUS revision) is recorded as the
    revised contract; (fixes/C01-v1-revised-and-proven-same-block.patch) a diff that is revised
    and resolved falls through into [case resolved]. *)
 Definition build1 (revert : bool) (ch : changes) (d : fdiff) : option changes :=
   if negb (fd_relevant d) then Some ch
   else if fd_created d then
-    Some (add_rev1 (add_conf1 ch (fd_id d)) (fd_id d, if revert then 0 else fd_cur d))
+    Some (build1_res (add_rev1 (add_conf1 ch (fd_id d)) (fd_id d, if revert then 0 else fd_cur d)) d)
   else match fd_rev d with
        | Some r => Some (build1_res (add_rev1 ch (fd_id d, if revert then fd_cur d else r)) d)
        | None => if fd_resolved d then Some (build1_res ch d) else None
